@@ -19,6 +19,7 @@ WTARGET = os.path.join(R.CACHE, 'witness-target' + _sfx)
 CASES = [
     (r'k\.atomic', r'.*', ['atomic']),
     (r'k\.atomic_bv', r'.*', ['bitvec_stale', 'bitvec_ops']),
+    (r'select\.lookup.*', r'.*', ['select_all', 'select_inv']),
     (r'k\.select_small_complete|select\..*', r'.*', ['select_all']),
     (r'k\.bfv_unaligned', r'.*', ['bfv_unaligned']),
     (r'k\.bfv_apply', r'.*', ['bfv_apply']),
@@ -130,7 +131,7 @@ def rerun(w):
 # thorough tier: property-level twins run as an exploration on top of the proofs (never counted as proved)
 PROP_TWINS = {
     'C01': ['select_all', 'select_big'],
-    'C02': ['select_all', 'select_big'],
+    'C02': ['select_all', 'select_inv', 'select_big'],
     'C03': ['ef_big'],
     'C04': ['ef_dict', 'ef_big'],
     'C08': ['vfilter', 'vfunc'],
